@@ -81,6 +81,7 @@ type FuncSpec struct {
 	EntryGhost []GhostUpdate
 	Props     []string // default property tags for every clause
 	bound     bool
+	Text      string // the source text of every clause of this contract (rename recovery, alias.go)
 }
 
 type SpecFun struct {
@@ -273,6 +274,12 @@ func (w *World) loadSpecFile(path, pkg string) error {
 		rest := strings.TrimSpace(t[len(kw):])
 		fail := func(f string, a ...interface{}) error {
 			return fmt.Errorf("%s:%d: %s", r.file, r.line, fmt.Sprintf(f, a...))
+		}
+		switch kw {
+		case "requires", "ensures", "modifies", "use", "loop", "invariant", "decreases", "at", "crashinv", "crashensures":
+			if cur != nil {
+				cur.Text += t + "\n"
+			}
 		}
 		switch kw {
 		case "func", "iface", "functype":
